@@ -265,6 +265,152 @@ impl ClientRoutesUpdate {
     }
 }
 
+/// The metadata worker's `MetadataUpdate::merge_*` constructors, applied through the real merge
+/// channel, with fetched metadata reduced to tags (a full fetch with tag `t` has cluster name `t` and
+/// one peer with host id `t`; a topology fetch with tag `t` lists one peer with host id `t`).
+#[cfg(scylla_verif)]
+pub mod verif_hooks {
+    use super::{MetadataChanges, MetadataUpdate, StatusHint};
+    use crate::cluster::metadata::merge_channel as mc;
+    use crate::cluster::metadata::{Metadata, Peer};
+    use crate::cluster::node::NodeAddr;
+    use crate::errors::MetadataError;
+    use std::net::SocketAddr;
+    use tokio::sync::oneshot;
+    use uuid::Uuid;
+
+    pub struct Producer(mc::Sender<MetadataUpdate>);
+    pub struct Consumer(mc::Receiver<MetadataUpdate>);
+    /// The caller's end of an explicit refresh request.
+    pub struct RefreshTicket(oneshot::Receiver<Result<(), MetadataError>>);
+
+    #[derive(Debug, Clone, Copy, PartialEq, Eq)]
+    pub enum Kind {
+        Full,
+        Partial,
+        HintsOnly,
+    }
+
+    pub struct Taken {
+        pub kind: Kind,
+        /// cluster name of the pending full fetch
+        pub full_tag: Option<u64>,
+        /// host id of the single peer of the topology this value would publish
+        pub peers_tag: Option<u64>,
+        /// (address, up?) sorted by address
+        pub hints: Vec<(SocketAddr, bool)>,
+        responses: Vec<oneshot::Sender<Result<(), MetadataError>>>,
+    }
+
+    fn peer(tag: u64) -> Peer {
+        Peer {
+            host_id: Uuid::from_u128(tag as u128),
+            address: NodeAddr::Translatable(SocketAddr::from(([127, 0, 0, 1], 9042))),
+            tokens: Vec::new(),
+            datacenter: None,
+            rack: None,
+        }
+    }
+
+    pub fn channel() -> (Producer, Consumer) {
+        let (s, r) = mc::merge_channel();
+        (Producer(s), Consumer(r))
+    }
+
+    impl Producer {
+        /// `Err(())`: the consumer is gone.
+        #[allow(clippy::result_unit_err)]
+        pub fn full_fetch(&mut self, tag: u64, requested: bool) -> Result<Option<RefreshTicket>, ()> {
+            let (tx, rx) = oneshot::channel();
+            let metadata = Metadata {
+                peers: vec![peer(tag)],
+                keyspaces: Default::default(),
+                cluster_name: Some(tag.to_string()),
+                client_routes: None,
+            };
+            let response = requested.then_some(tx);
+            self.0
+                .modify(|slot| MetadataUpdate::merge_metadata(slot, metadata, response))
+                .map_err(|_| ())?;
+            Ok(requested.then_some(RefreshTicket(rx)))
+        }
+        #[allow(clippy::result_unit_err)]
+        pub fn topology_fetch(&mut self, tag: u64) -> Result<(), ()> {
+            self.0
+                .modify(|slot| MetadataUpdate::merge_topology_update(slot, vec![peer(tag)]))
+                .map_err(|_| ())
+        }
+        #[allow(clippy::result_unit_err)]
+        pub fn status_hint(&mut self, addr: SocketAddr, up: bool) -> Result<(), ()> {
+            self.0
+                .modify(|slot| {
+                    if up {
+                        MetadataUpdate::merge_up_hint(slot, addr)
+                    } else {
+                        MetadataUpdate::merge_down_hint(slot, addr)
+                    }
+                })
+                .map_err(|_| ())
+        }
+    }
+
+    impl Consumer {
+        pub fn try_take(&mut self) -> Option<Taken> {
+            self.0.try_recv().map(summarise)
+        }
+        pub async fn take(&mut self) -> Option<Taken> {
+            self.0.recv().await.map(summarise)
+        }
+    }
+
+    fn summarise(u: MetadataUpdate) -> Taken {
+        let tag_of = |peers: &[Peer]| peers.first().map(|p| p.host_id.as_u128() as u64);
+        let mut hints: Vec<(SocketAddr, bool)> =
+            u.status_hints.iter().map(|(a, h)| (*a, *h == StatusHint::Up)).collect();
+        hints.sort();
+        match u.metadata_changes {
+            None => Taken { kind: Kind::HintsOnly, full_tag: None, peers_tag: None, hints, responses: Vec::new() },
+            Some(MetadataChanges::Partial(p)) => Taken {
+                kind: Kind::Partial,
+                full_tag: None,
+                peers_tag: p.peers.as_deref().and_then(tag_of),
+                hints,
+                responses: Vec::new(),
+            },
+            Some(MetadataChanges::Full { metadata, refresh_responses }) => Taken {
+                kind: Kind::Full,
+                full_tag: metadata.cluster_name.as_deref().and_then(|s| s.parse().ok()),
+                peers_tag: tag_of(&metadata.peers),
+                hints,
+                responses: refresh_responses,
+            },
+        }
+    }
+
+    impl Taken {
+        pub fn refresh_requests(&self) -> usize {
+            self.responses.len()
+        }
+        /// What the cluster worker does once the resulting state is published.
+        pub fn answer_all(self) {
+            for r in self.responses {
+                let _ = r.send(Ok(()));
+            }
+        }
+    }
+
+    impl RefreshTicket {
+        /// `Some(true)` answered, `Some(false)` the request was dropped unanswered, `None` still pending.
+        pub fn state(&mut self) -> Option<bool> {
+            match self.0.try_recv() {
+                Ok(_) => Some(true),
+                Err(oneshot::error::TryRecvError::Closed) => Some(false),
+                Err(oneshot::error::TryRecvError::Empty) => None,
+            }
+        }
+    }
+}
+
 #[cfg(test)]
 mod tests {
 
